@@ -402,7 +402,10 @@ class Builder:
 
     def s_While(self, st, fr):
         head, fr = self.add(fr, "nop", None)
-        t_fr, f_fr = self.cond(st.test, fr)
+        if isinstance(st.test, ast.Constant) and st.test.value:
+            t_fr, f_fr = fr, []      # `while True:` has no exit edge at the test
+        else:
+            t_fr, f_fr = self.cond(st.test, fr)
         lp = _Loop(head, len(self.finals))
         self.loops.append(lp)
         body_out = self.stmts(st.body, t_fr)
